@@ -98,13 +98,21 @@ func (r *runner) Step(t []string) string {
 	}
 	s := r.s
 	if s.crashed {
-		return "crashed"
+		return "skipped"
 	}
 	num := func(i int) (int, bool) {
 		if i >= len(t) {
 			return 0, false
 		}
 		return proto.Atoi(t[i])
+	}
+	// protocol: an armed restart timer fires in real time, so the only operation allowed next is `fire`
+	// (observations are fine); anything else is refused on both sides
+	if len(s.armed) > 0 {
+		switch t[0] {
+		case "spawn", "tell", "kill", "shutdown", "run":
+			return "need-fire"
+		}
 	}
 	switch t[0] {
 	case "spawn":
@@ -151,7 +159,7 @@ func (r *runner) Step(t []string) string {
 		}
 		before := len(s.actors)
 		o := s.RunActor(a)
-		if o == "skip" || o == "hang" || o == "crashed" {
+		if o == "skip" || o == "hang" || o == "fatal" || o == "skipped" {
 			return o
 		}
 		return o + " " + r.global(before)
@@ -193,6 +201,8 @@ func (r *runner) Step(t []string) string {
 		return s.Log(a)
 	case "deadlog":
 		return "[" + strings.Join(s.dead, " ") + "]"
+	case "events":
+		return "[" + strings.Join(s.events, " ") + "]"
 	}
 	return "bad-op"
 }
@@ -297,7 +307,10 @@ func gen(rng *proto.RNG, tier string, shard, nshards int, w *bufio.Writer) {
 				add(fmt.Sprintf("beh %d rule %s %s", b, p, strings.Join(acts, " ; ")))
 			}
 			if top || rng.Intn(3) == 0 {
-				add(fmt.Sprintf("beh %d strategy %d %s", b, rng.Range(-1, 3), genDirectives(rng, !top)))
+				// an `escalate` in the victim's OWN strategy travels with the record up to the root,
+				// where Escalate panics inside the recover handler (process-fatal, known finding):
+				// generated only in supervisors' strategies
+				add(fmt.Sprintf("beh %d strategy %d %s", b, rng.Range(-1, 3), genDirectives(rng, false)))
 			}
 			if top || rng.Intn(4) == 0 {
 				add(fmt.Sprintf("beh %d actorstrategy %d %s", b, rng.Range(-1, 3), genDirectives(rng, !top)))
@@ -368,7 +381,13 @@ func gen(rng *proto.RNG, tier string, shard, nshards int, w *bufio.Writer) {
 			add(fmt.Sprintf("log %d", a))
 		}
 		add("deadlog")
+		add("events")
+		add("dump")
+		hazard := r.s.hazard
 		r.Reset()
+		if hazard {
+			continue // see Sys.hazard: outcome depends on Go's map iteration order
+		}
 		fmt.Fprintf(w, "# case %d.%d\n", shard, c)
 		for _, l := range lines {
 			fmt.Fprintln(w, l)
